@@ -10,6 +10,7 @@ import EduceModel.Spec.Into
 import EduceModel.Spec.Default
 import EduceModel.Gen.Union
 import EduceModel.DriverAttr
+import EduceModel.Bridge
 /-
   Line-protocol driver: one JSON array per line in, one JSON array per line out.
   The executable definitions it runs are exactly the ones the theorems are about
@@ -57,6 +58,12 @@ structure DefJ where
   isUnion : Bool
   defCfg : DefCfg
   uattr : UnionAttr
+  -- end-to-end definitions (`defe2e`): configurations derived by the attribute-layer model from syn's records
+  -- through `Bridge`; when present they replace what the generator wrote
+  eqO : Option EqType := none
+  ordO : Option OrdType := none
+  hashO : Option HashType := none
+  cloneO : Option CloneType := none
   deriving Inhabited
 
 structure St where
@@ -141,24 +148,28 @@ def parseDef (j : Json) : DefJ :=
         fields := (jarr (jfield v "fields")).map parseField } }
 
 def DefJ.eqType (d : DefJ) : EqType :=
+  if let some t := d.eqO then t else
   let mk (v : VariantJ) : EqVariant :=
     { name := v.name, shape := v.shape, fields := v.fields.toList.map (·.eq) }
   if d.isEnum then .enum (d.variants.toList.map mk)
   else .struct (mk (d.variants[0]!))
 
 def DefJ.ordType (d : DefJ) : OrdType :=
+  if let some t := d.ordO then t else
   let mk (v : VariantJ) : OrdVariant :=
     { name := v.name, shape := v.shape, fields := v.fields.toList.map (·.ord), disc := v.disc }
   if d.isEnum then .enum (d.variants.toList.map mk)
   else .struct (mk (d.variants[0]!))
 
 def DefJ.hashType (d : DefJ) : HashType :=
+  if let some t := d.hashO then t else
   let mk (v : VariantJ) : HashVariant :=
     { name := v.name, shape := v.shape, fields := v.fields.toList.map (·.hash) }
   if d.isEnum then .enum (d.variants.toList.map mk)
   else .struct (mk (d.variants[0]!))
 
 def DefJ.cloneType (d : DefJ) : CloneType :=
+  if let some t := d.cloneO then t else
   let mk (v : VariantJ) : CloneVariant :=
     { name := v.name, shape := v.shape, fields := v.fields.toList.map (·.clone) }
   if d.isUnion then .union
@@ -259,6 +270,56 @@ def showOB : Option Bool → String
 
 def natList (j : Json) : List Nat := (jarr j).toList.map jnat
 
+/-! ### end-to-end definitions: syn's records → attribute layer → `Bridge` → behavioural configuration -/
+
+/-- Numbering of the custom methods: the generator's table maps the last path segment to the id the leaf tables use. -/
+def methodNum (table : List (String × Nat)) (path : String) : Nat :=
+  let seg := ((path.replace " " "").splitOn "::").getLast!
+  ((table.find? fun p => p.1 == seg).map (·.2)).getD 999
+
+/-- ["defe2e", id, def, record, methods] — `def` as for "def" (leaf types, discriminant values, names), `record` as for
+    "expand". Every configuration the attributes determine is taken from the attribute-layer model. Returns an error
+    string when the model does not accept the definition. -/
+def defE2E (dj : DefJ) (rec : Json) (methods : Json) : Except String DefJ :=
+  let d := DA.deriveInput rec
+  let F := Educe.Attr.TraitId.all
+  let table : List (String × Nat) := (jarr methods).toList.map fun p => (jstr (jarr p)[0]!, jnat (jarr p)[1]!)
+  let num := methodNum table
+  -- the value rustc gives a written discriminant: the generator computed it per variant
+  let discPairs : List (String × Int) :=
+    (d.variants.zip dj.variants.toList).filterMap fun (v, vj) => match v.disc, vj.disc with
+      | some s, some n => some (s, n)
+      | _, _ => none
+  let discVal : String → Int := fun s => ((discPairs.find? fun p => p.1 == s).map (·.2)).getD 0
+  match Educe.Attr.collectTopAttrs F d.attrs [] with
+  | .diag e => .error ("collect: " ++ DA.showDiag e)
+  | .panic s => .error ("collect: panic " ++ DA.showSite s)
+  | .ok map =>
+    let c := Educe.Bridge.ctxOf F map d
+    let fail {α : Type} (what : String) (r : Educe.Attr.Res α) : Except String (Option α) :=
+      match r with
+      | .ok a => .ok (some a)
+      | .diag e => .error (what ++ ": " ++ DA.showDiag e)
+      | .panic s => .error (what ++ ": panic " ++ DA.showSite s)
+    if d.kind == .union then .ok dj else do
+    let eqO ← if c.traits .partialEq then
+        (fail "PartialEq scan" (Educe.Bridge.cmpScan c (Educe.Bridge.mineEq c) Educe.Bridge.eqFlags)).map (·.map (Educe.Bridge.eqType num d.kind))
+      else pure none
+    let hashO ← if c.traits .hash then
+        (fail "Hash scan" (Educe.Bridge.cmpScan c (· == .hash) Educe.Bridge.eqFlags)).map (·.map (Educe.Bridge.hashType num d.kind))
+      else pure none
+    let ordO ← if c.traits .ord then
+        (fail "Ord scan" (Educe.Bridge.ordScan c (Educe.Bridge.mineOrd c))).map (·.map (Educe.Bridge.ordType num discVal d.kind))
+      else if c.traits .partialOrd then
+        (fail "PartialOrd scan" (Educe.Bridge.ordScan c (· == .partialOrd))).map (·.map (Educe.Bridge.ordType num discVal d.kind))
+      else pure none
+    let cloneO ← if c.traits .clone then
+        (fail "Clone scan" (Educe.Bridge.cloneScan c (Educe.Bridge.cloneEnableMethod c))).map (·.map (Educe.Bridge.cloneType num d.kind))
+      else pure none
+    let ordMode := if c.traits .ord && c.traits .partialOrd then "both" else if c.traits .ord then "ord" else if c.traits .partialOrd then "partialord" else dj.ordMode
+    pure { dj with eqO := eqO, hashO := hashO, ordO := ordO, cloneO := cloneO,
+                   copy := if c.traits .clone then c.traits .copy else dj.copy, ordMode := ordMode }
+
 def handle (st : St) (j : Json) : St × Option Json :=
   let a := jarr j
   let op := jstr a[0]!
@@ -271,6 +332,10 @@ def handle (st : St) (j : Json) : St × Option Json :=
     ({ st with methB := st.methB.insert (jstr a[1]!, jnat a[2]!, jnat a[3]!, jnat a[4]!) (jbool a[5]!) }, none)
   else if op == "def" then
     ({ st with defs := st.defs.insert (jnat a[1]!) (parseDef a[2]!) }, none)
+  else if op == "defe2e" then
+    match defE2E (parseDef a[2]!) a[3]! a[4]! with
+    | .ok dj => ({ st with defs := st.defs.insert (jnat a[1]!) dj }, some (Json.arr #["defe2e", a[1]!, "ok"]))
+    | .error e => (st, some (Json.arr #["defe2e", a[1]!, Json.str e]))
   else if op == "eq" then
     -- ["eq", def, va, [fa], vb, [fb]]  →  ["eq", def, va, [fa], vb, [fb], model, spec]
     match st.defs.get? (jnat a[1]!) with
